@@ -20,7 +20,7 @@ vars == <<inp, phase>>
 (* utility ladders as they appear in the REQUEST (real temperatures, dt_cont 0): *)
 (*   ty in {"Hot","Cold","Both"}; ts = tt means isothermal (the code adds the    *)
 (*   phase-change glide itself)                                                  *)
-RUt(nm, ty, ts, tt) == [name |-> nm, type |-> ty, ts |-> ts, tt |-> tt]
+RUt(nm, ty, ts, tt) == [name |-> nm, type |-> ty, ts |-> ts, tt |-> tt, active |-> TRUE]
 Ladder(o) ==
   CASE o = 0 -> <<>>                                                       \* defaults only
     [] o = 1 -> << RUt("LPS", "Both", TMin + 150, TMin + 150) >>            \* generation and use at one level
@@ -30,6 +30,9 @@ Ladder(o) ==
                    RUt("GEN", "Cold", TMin + 100, TMin + 110) >>            \*   but inside the 1 K matching window (native embedding)
     [] o = 4 -> << RUt("HW", "Hot", TMin + 250, TMin + 150),                \* gliding utilities
                    RUt("CW", "Cold", TMin - 100, TMin - 50) >>
+    [] o = 6 -> << [RUt("CWoff", "Cold", TMin - 100, TMin - 90) EXCEPT !.active = FALSE],   \* listed but switched off: must be ignored
+                   [RUt("HPoff", "Hot", TMax + 200, TMax + 190) EXCEPT !.active = FALSE],
+                   RUt("AIR", "Cold", TMin + 150, TMin + 160) >>                            \* an active cold utility that is too warm
     [] o = 5 -> << RUt("USE", "Hot", TMin + 30, TMin + 20),                 \* for the fine lattice {120,130,140}: use at 150->140,
                    RUt("GEN", "Cold", TMin - 20, TMin - 10) >>              \*   generation at 100->110 (0.4 K below, inside the 1 K window)
 
